@@ -332,7 +332,7 @@ def prices(ctx: Ctx):
         if f.relpath == CS and f.qualname == "ChargerState.build":
             return "ChargerState.build (initial 0.0)"
         return None
-    rules.rule_field_writers(ctx, "D4", "price_per_kwh", ok_w, "price_per_kwh is written only through Station.update_prices", 2)
+    rules.rule_field_writers(ctx, "D4", "price_per_kwh", ok_w, "price_per_kwh is written only through Station.update_prices", 1)
     rules.rule_callers(ctx, "D4", "update_prices", lambda s: "_update_station_prices" if s.func is not None and s.func.qualname == "_update_station_prices" else None,
                        "Station.update_prices is called only by _update_station_prices", 1)
     fn = repo.func(ST, "Station.update_prices")
@@ -342,7 +342,22 @@ def prices(ctx: Ctx):
             ok = flow.dump(p.value) == f"station_state_updates(station=self, it={fn.params[1]}.items(), op=_update)"
     inner = repo.func(ST, "Station.update_prices._update")
     ips = [p for p in flow.paths(inner.node) if p.kind == "return"]
-    ok2 = len(ips) == 1 and flow.dump(ips[0].value) == f"(None, {inner.params[0]}._replace(price_per_kwh={inner.params[1]}))"
+    # the plug type named gets the given price (what else the record carries — its counters — is C02's business, not this property's)
+    def _sets_price(v) -> bool:
+        if not (isinstance(v, ast.Tuple) and len(v.elts) == 2 and flow.dump(v.elts[0]) == "None"):
+            return False
+        c = flow.core(v.elts[1])
+        if not isinstance(c, ast.Call):
+            return False
+        kw = {k.arg: flow.dump(k.value) for k in c.keywords if k.arg}
+        price = inner.params[1]
+        fn_d = flow.dump(c.func)
+        if fn_d == f"{inner.params[0]}._replace":
+            return kw.get("price_per_kwh") == price
+        if fn_d in ("ChargerState", "ChargerState.build"):
+            return kw.get("price_per_kwh") == price or (fn_d == "ChargerState.build" and len(c.args) >= 3 and flow.dump(c.args[2]) == price)
+        return False
+    ok2 = len(ips) >= 1 and all(_sets_price(p.value) for p in ips)
     ctx.check(ok and ok2, "D4", "DU.price-setter", "update_prices sets price_per_kwh of exactly the plug types named in the update", fn, why_bad="shape changed", construct="Station.update_prices")
     # _update_station_prices: unknown station / failures keep the state
     fn = repo.func(CPU, "_update_station_prices")
